@@ -37,6 +37,7 @@ class Contract:
         self.doc = doc
         self.params = []  # [(name, Type)]
         self.ghosts = []
+        self.ghost_outs = []
         self.requires_ = []
         self.returns_ = []
         self.raises_ = []
@@ -67,6 +68,12 @@ class Contract:
     def ghost(self, name, type_):
         """A specification-only parameter (existential witness of the precondition / abstract state)."""
         self.ghosts.append((name, type_))
+        return self
+
+    def ghost_out(self, name, type_, witness, native):
+        """Ghost RESULT (existential witness of the postcondition): when the function itself is verified the witness is
+        computed by `witness(it, ctx)`; at call sites it is a fresh symbol of `type_`; natively it is the expression `native`."""
+        self.ghost_outs.append((name, type_, witness, native))
         return self
 
     def let(self, name, text):
